@@ -11,19 +11,19 @@ def reg(pid, technique, text, note, ref=None):
     CHECKS[pid] = (technique, text, note, ref or 'DESIGN.md section 3, ' + pid)
 
 
-reg('C18', 'exhaustive string enumeration + Hypothesis/mutation fuzzing against a span-tiling invariant',
+reg('C18', 'exhaustive string enumeration + Hypothesis/mutation fuzzing + coverage-guided fuzzing (atheris/libFuzzer, thorough tier) against a span-tiling invariant',
     'Every string over the markup (27 symbols) and stylesheet (23 symbols) abbreviation alphabets up to length 4 (quick) / 5 '
     '(thorough) is tokenized in all three modes and the spans are checked to tile the input; random strings ≤ 60, all prefixes and '
-    '≤3-edit mutants of valid abbreviations extend beyond the bound. Exhaustive within the bound, sampled beyond it.',
+    '≤3-edit mutants of valid abbreviations extend beyond the bound; the thorough tier adds 16 coverage-guided campaigns (bytes → language + string, half from an empty corpus) with the same oracle inside the target. Exhaustive within the bound, sampled beyond it.',
     'Trusts the Token.start/.end attributes as the span interface; absence of violations beyond the enumerated length is not shown.')
 
-reg('C07', 'exhaustive string enumeration × fixed configs + Hypothesis (strings, fragments, random option sets) + mutation/prefix fuzzing; oracle = exception-type whitelist with error-position bound',
+reg('C07', 'exhaustive string enumeration × fixed configs + Hypothesis (strings, fragments, random option sets) + mutation/prefix fuzzing + coverage-guided fuzzing (atheris, thorough tier); oracle = exception-type whitelist with error-position bound',
     'Every string of length ≤ 3 (quick) / ≤ 4 (thorough) over the 27-symbol markup alphabet × 8 configurations and over the 23-symbol stylesheet '
     'alphabet × 5 configurations is expanded; beyond the bound Hypothesis strings/fragment sequences with random option sets, all prefixes and '
     '≤3-edit mutants of valid abbreviations. Anything escaping other than the two parse errors (with pos in range) is bucketed by root cause.',
     'Termination is decided by a 20 s CPU-time watchdog per call (normal cost < 10 ms); repeat counts are bounded by the generator. Malformed user snippets are outside the domain.')
 
-reg('C19', 'exhaustive token-sequence/string enumeration + Hypothesis expression trees; differential against an exact Fraction evaluator with a rigorous float error bound; validity predicate for extract()',
+reg('C19', 'exhaustive token-sequence/string enumeration + Hypothesis expression trees + coverage-guided fuzzing (atheris, thorough tier); differential against an exact Fraction evaluator with a rigorous float error bound; validity predicate for extract()',
     'evaluate(): every sequence of ≤ 5 (quick) / ≤ 7 (thorough) tokens over 4 numbers, 5 operators and parentheses, every string ≤ 5/6 over a 12-character '
     'alphabet, and random expression trees are compared with a reference parser that implements the stated precedence and evaluates exactly; '
     'extract(): every string ≤ 5/6 over 8 characters × every position × 3 option sets is checked against the range/charset/balance/end predicate.',
@@ -31,13 +31,13 @@ reg('C19', 'exhaustive token-sequence/string enumeration + Hypothesis expression
     'Which malformed texts must raise is asserted for foreign characters, a trailing binary operator, parentheses unbalanced either way and a decimal point without digits; '
     'parenthesis-heavy malformed texts are enumerated separately (every sequence of ≤ 5/7 pieces over (1) () ( ) 2 + - *).')
 
-reg('C20', 'exhaustive enumeration of the layer-presence lattice against a reference precedence order; snapshot comparison for immutability',
+reg('C20', 'exhaustive enumeration of the layer-presence lattice against a reference precedence order; metamorphic option-effect table through expand(); snapshot comparison for immutability',
     'The complete 2^6 lattice of defining layers × 3 kinds × 23 (type, syntax) pairs (all known syntaxes, xhtml, unknown names) is enumerated in the quick '
     'tier; the winner is checked on the resolved Config and through expand output, all other keys against a baseline, and deep snapshots of every built-in '
-    'table and caller dictionary are compared after each case. Natural keys of the shipped tables × 2^3 caller layers add the un-injected view. Exhaustive for the stated finite domain.',
+    'table and caller dictionary are compared after each case. Natural keys of the shipped tables × 2^3 caller layers add the un-injected view; 41 options are observed through expand() under all 3^3 assignments of {absent, v1, v2} to the three caller layers (with and without a wrap text): the two values must be distinguishable and the most specific layer must win. Exhaustive for the stated finite domain.',
     'Built-in layers are exercised by swapping deep copies of DEFAULT_CONFIG/SYNTAX_CONFIG into emmet.config for one case (restored in finally); `type` is always explicit.')
 
-reg('C16', 'exhaustive string × position enumeration + Hypothesis token strings + mutation/truncation fuzzing of valid documents; oracle = totality and range well-formedness invariants',
+reg('C16', 'exhaustive string × position enumeration (documents, attribute fragments, script/style open-tag fragments) + Hypothesis token strings + mutation/truncation fuzzing of valid documents + coverage-guided fuzzing (atheris, thorough tier); oracle = totality and range well-formedness invariants',
     'Every string of length ≤ 4 (quick) / ≤ 5 (thorough) over a 17-symbol HTML and a 19-symbol CSS alphabet (plus every attribute fragment ≤ 5/6 over 12 symbols incl. the Angular markers) is fed to scan, attributes, split_value, match, '
     'balanced_outward and balanced_inward at every position −1..len+1; random token strings, ≤3-edit mutants and all truncations of valid documents go beyond the bound. '
     'Checked: no exception, ranges inside the text, tag-shape/order of scanned tags, match == outward[0], strict nesting of outward entries, nesting of inward entries.',
@@ -118,7 +118,7 @@ reg('C17', 'Hypothesis HTML and CSS document trees with generator-recorded groun
     'selected item models are compared exactly with the record (select_item_css inside an item: validity of ranges).',
     'Boundary positions of sections are two-valued; for a declaration terminated by `}` select_item_css may end the full range at the value end, the brace or after it; values have no embedded comments.')
 
-reg('C11', 'exhaustive line × caret enumeration + Hypothesis lines (consistency predicate) and generated abbreviation × context embedding (round trip)',
+reg('C11', 'exhaustive line × caret enumeration + Hypothesis lines + coverage-guided fuzzing (atheris, thorough tier) for the consistency predicate; generated abbreviation × context embedding (round trip)',
     'Every line of length ≤ 4 (quick) / ≤ 5 (thorough) over a 16-symbol alphabet × every caret −2..len+2 × 4 option sets, and Hypothesis lines ≤ 80 × type × lookAhead × 5 prefixes are checked against the consistency '
     'predicate; valid abbreviations (serialised G1 scripts with attribute sets, texts, groups, repeaters; G5 stylesheet abbreviations) are embedded after 21 left contexts (blanks, words, complete tags with quoted/unquoted '
     'attributes) and before 6 right contexts or with the caret before their auto-closed tail, and extract must return exactly the embedded abbreviation.',
